@@ -93,6 +93,36 @@ func TestVerifC12Gjkr(t *testing.T) {
 				}
 				return len(st.phaseMessages) == 1
 			}},
+		// Phases 4 and 8 also take the accusations of a member the receiver itself accused -
+		// and thereby disqualified - in this very phase (see commitmentsVerificationState):
+		// the claimed member is in the state's accused set and disqualified in the
+		// receiver's view; everything else of the rule still applies.
+		{Name: "phase4 commitmentsVerificationState/SecretSharesAccusationsMessage from a member accused in this phase",
+			Rule: c12.Rule{IgnoreSelf: true, Session: true}, NoStatus: true,
+			Accept: func(env *c12.Env, c c12.Case) bool {
+				m := c12Member(env, c)
+				m.group.MarkMemberAsDisqualified(sender(c))
+				st := &commitmentsVerificationState{member: m.InitializeEphemeralKeysGeneration().InitializeSymmetricKeyGeneration().
+					InitializeCommitting().InitializeCommitmentsVerification(),
+					accusedMembers: map[group.MemberIndex]bool{sender(c): true}}
+				if err := st.Receive(msg(env, c, &SecretSharesAccusationsMessage{senderID: sender(c), sessionID: c12.SessionOf(c)})); err != nil {
+					panic(err)
+				}
+				return len(st.phaseAccusationsMessages) == 1
+			}},
+		{Name: "phase8 pointsValidationState/PointsAccusationsMessage from a member accused in this phase",
+			Rule: c12.Rule{IgnoreSelf: true, Session: true}, NoStatus: true,
+			Accept: func(env *c12.Env, c c12.Case) bool {
+				m := c12Member(env, c)
+				m.group.MarkMemberAsDisqualified(sender(c))
+				st := &pointsValidationState{member: m.InitializeEphemeralKeysGeneration().InitializeSymmetricKeyGeneration().
+					InitializeCommitting().InitializeCommitmentsVerification().InitializeSharesJustification().InitializeQualified().InitializeSharing(),
+					accusedMembers: map[group.MemberIndex]bool{sender(c): true}}
+				if err := st.Receive(msg(env, c, &PointsAccusationsMessage{senderID: sender(c), sessionID: c12.SessionOf(c)})); err != nil {
+					panic(err)
+				}
+				return len(st.phaseMessages) == 1
+			}},
 		{Name: "phase10 keyRevealState/MisbehavedEphemeralKeysMessage", Rule: rule,
 			Accept: func(env *c12.Env, c c12.Case) bool {
 				st := &keyRevealState{member: c12Member(env, c).InitializeEphemeralKeysGeneration().InitializeSymmetricKeyGeneration().
